@@ -22,6 +22,17 @@ def rhombus(fall: bool = False) -> Spec:
     ], "A", "D")
 
 
+def two_chains() -> Spec:
+    """Two independent fallible nodes, each with a dependant that becomes ready when it succeeds: when both finish in the
+    same loop iteration, the success of one starts new work before the run loop has looked at the failure of the other."""
+    return Spec("two_chains", [
+        Node("A"),
+        Node("B", (("a", In("A")),), kinds=F), Node("B2", (("b", In("B")),)),
+        Node("C", (("a", In("A")),), kinds=F), Node("C2", (("c", In("C")),)),
+        Node("D", (("b", In("B2")), ("c", In("C2")))),
+    ], "A", "D", dur_nodes=("B", "C"))
+
+
 def fan() -> Spec:
     """Input + 3 parallel mark-less nodes (implicit input link) + join."""
     return Spec("fan", [
@@ -379,6 +390,75 @@ def rec_side_input(max_iter: int = 1) -> Spec:
     ], "A", "O")
 
 
+def rec_nested_pattern() -> Spec:
+    """Nested recurrent subgraphs; the inner destination decides per invocation whether it asks for another iteration, so it
+    can finish with a real result and be asked to iterate again in a later iteration of the outer subgraph."""
+    return Spec("rec_nested_pattern", [
+        Node("S", takes_ad=True),
+        Node("T", (("s", In("S")),), takes_ad=True),
+        Node("D1", (("t", In("T")),), recurrent=True, rec_pattern=True, use_default=True),
+        Node("U", (("d1", Rec("T", "D1", 2)),)),
+        Node("D2", (("u", In("U")),), recurrent=True, want_max=1, use_default=True),
+        Node("O", (("d2", Rec("S", "D2", 1)),)),
+    ], "S", "O", dur_nodes=())
+
+
+def rec_in_oneof_chain(max_iter: int = 1) -> Spec:
+    """As rec_in_oneof with one more node between the fallible node and the destination: a failure in an iteration is then
+    two steps away from the destination of the subgraph, and the one-of has to learn about it all the same."""
+    return Spec("rec_in_oneof_chain", [
+        Node("S", takes_ad=True),
+        Node("M", (("s", In("S")),), kinds=F, kind_slots=2),
+        Node("N", (("m", In("M")),)),
+        Node("D", (("n", In("N")),), recurrent=True, want_max=max_iter + 1),
+        Node("P1", (("d", Rec("S", "D", max_iter)),)),
+        Node("P2", (("s", In("S")),)),
+        Node("O", (("v", OneOf(("P1", "P2"))),)),
+    ], "S", "O", dur_nodes=("M",))
+
+
+def rec_nested_in_oneof() -> Spec:
+    """Nested recurrent subgraphs without defaults inside a one-of candidate: the inner subgraph may finish on the ordinary
+    pass and exhaust later, when it is re-executed by an iteration of the outer subgraph; that only fails the candidate."""
+    return Spec("rec_nested_in_oneof", [
+        Node("S", takes_ad=True),
+        Node("T", (("s", In("S")),), takes_ad=True),
+        Node("D1", (("t", In("T")),), recurrent=True, rec_pattern=True),
+        Node("U", (("d1", Rec("T", "D1", 1)),)),
+        Node("D2", (("u", In("U")),), recurrent=True, want_max=2),
+        Node("P1", (("d2", Rec("S", "D2", 1)),)),
+        Node("P2", (("s", In("S")),)),
+        Node("O", (("v", OneOf(("P1", "P2"))),)),
+    ], "S", "O", dur_nodes=())
+
+
+def rec_with_switch_inner(max_iter: int = 1) -> Spec:
+    """As rec_with_switch, but the start node of the subgraph is not the pipeline's input node, and the consumer of the
+    switch has a second dependency."""
+    return Spec("rec_with_switch_inner", [
+        Node("A"),
+        Node("S", (("a", In("A")),), takes_ad=True),
+        Node("W", (("s", In("S")),), labels=("l1", "l2"), label_slots=2),
+        Node("X", (("s", In("S")),)), Node("Y", (("a", In("A")),)),
+        Node("Side", (("s", In("S")),)),
+        Node("C", (("v", Sw("W", (("l1", "X"), ("l2", "Y")), "sw")), ("side", In("Side")))),
+        Node("D", (("c", In("C")),), recurrent=True, want_max=max_iter + 1, use_default=True),
+        Node("O", (("d", Rec("S", "D", max_iter)),)),
+    ], "A", "O", dur_nodes=("W", "Side"))
+
+
+def oneof_candidate_also_input() -> Spec:
+    """The first candidate Sh of O's one-of is also a plain Input of another node Rp (which has a second, possibly faster
+    input): Rp must wait for Sh like for any other input."""
+    return Spec("oneof_candidate_also_input", [
+        Node("A"),
+        Node("Sh", (("a", In("A")),), kinds=F), Node("Fst", (("a", In("A")),)),
+        Node("Rp", (("shared", In("Sh")), ("f", In("Fst")))),
+        Node("C2", (("a", In("A")),)),
+        Node("O", (("v", OneOf(("Sh", "C2"))), ("r", In("Rp")))),
+    ], "A", "O", dur_nodes=("Sh", "Fst"))
+
+
 def rec_retry_inside(max_iter: int = 2) -> Spec:
     """A retrying node (attempts = 2) inside the recurrent subgraph: every iteration gets the full number of attempts."""
     return Spec("rec_retry_inside", [
@@ -509,6 +589,7 @@ TEMPLATES: Dict[str, Callable[..., Spec]] = {f.__name__: f for f in [
     switch_case_also_input, oneof_basic, oneof_depth, oneof_three, oneof_nested, oneof_sibling,
     oneof_chained, oneof_with_switch, oneof_with_switch_deep, oneof_shared_dep, oneof_diamond,
     oneof_shared_inflight, oneof_shared_failing_ancestor, oneof_with_switch_unknown, oneof_siblings_shared,
-    switch_two_deciders, switch_unnamed_same_decider, rec_retry_inside, rec_none_data, oneof_diamond_shared, oneof_reached_twice, oneof_reached_via_nested, retry_attempts_zero, rec_simple, rec_inner_start, rec_outside_reader,
+    switch_two_deciders, switch_unnamed_same_decider, rec_retry_inside, rec_none_data, oneof_diamond_shared,
+    rec_nested_pattern, rec_with_switch_inner, oneof_candidate_also_input, oneof_reached_twice, oneof_reached_via_nested, retry_attempts_zero, rec_simple, rec_inner_start, rec_outside_reader,
     rec_two_scopes, rec_outside_reader_slow, rec_side_input, rec_with_switch, rec_with_oneof, rec_in_oneof, rec_nested, retry_sibling, retry_chain,
 ]}
